@@ -50,6 +50,12 @@ def run(prop, tier, seed, replay):
                 w_src = np.arange(m, dtype=float) + 1.0
                 z_src = w_src / 1000.0
                 attr = ci % 3
+                if attr == 2 and ci % 2 == 0:
+                    # supplied samples with a missing value each — in DIFFERENT rows: rows must still be drawn as rows
+                    w_src, z_src = w_src.copy(), z_src.copy()
+                    w_src[1] = np.nan
+                    z_src[m - 2] = np.nan
+                    ck.count("attrs=missing-values-in-different-rows")
                 kw = {}
                 if attr >= 1:
                     kw["weights"] = w_src
@@ -85,11 +91,19 @@ def run(prop, tier, seed, replay):
                 # ---- the window is filled, not only respected (n >= 60: a uniform sample misses an outer tenth of the
                 #      window with probability 0.9^60 < 2e-3 per side; checked on the fixed-seed big sample below as well)
                 # ---- joint attributes ------------------------------------------------------------------
-                if "weights" in kw and "redshifts" in kw:
+                if "weights" in kw and "redshifts" in kw and (np.isnan(w_src).any() or np.isnan(z_src).any()):
+                    rows = {(repr(float(a)), repr(float(b))) for a, b in zip(w_src, z_src)}
+                    got = {(repr(float(a)), repr(float(b))) for a, b in zip(data["weights"], data["redshifts"])}
+                    if not got <= rows:
+                        ck.add_violation(f"{len(got - rows)} generated (weight, redshift) pairs are not rows of the supplied "
+                                         f"samples, e.g. {sorted(got - rows)[:2]} (the samples hold one missing weight and one "
+                                         "missing redshift in different rows)", dict(rep, weights=w_src.tolist(), redshifts=z_src.tolist()))
+                        continue
+                elif "weights" in kw and "redshifts" in kw:
                     if not np.array_equal(data["redshifts"], data["weights"] / 1000.0):
                         ck.add_violation("weights and redshifts of a random point do not come from the same source row", rep)
                         continue
-                if "weights" in kw and not np.all(np.isin(data["weights"], w_src)):
+                if "weights" in kw and not np.all(np.isin(data["weights"][~np.isnan(data["weights"])], w_src)):
                     ck.add_violation("a random weight is not one of the supplied weights", rep)
                     continue
                 # ---- reproducibility regardless of earlier use -----------------------------------
